@@ -837,7 +837,16 @@ func C16_Skeleton() {
 	h2 := rt.Param("H2", 1) // hole size in two-hole skeletons
 	s := func(x string) []byte { return []byte(x) }
 	var in []byte
-	switch rt.Choose("skeleton", 8) {
+	switch rt.Choose("skeleton", 9) {
+	case 8:
+		// a top-level scalar between two free bytes (leading / trailing
+		// whitespace, or anything else)
+		words := []string{"true", "false", "null", "1", `"s"`, "1.5"}
+		w := words[rt.Choose("scalar", len(words))]
+		in = cat(hole(1), s(w), hole(1))
+		if rt.Choose("bare", 2) == 1 {
+			in = cat(s(w), hole(1))
+		}
 	case 7:
 		// a decimal with symbolic digits and three free bytes after the
 		// fraction (exponent marker, exponent sign, digit, or anything else)
